@@ -95,6 +95,7 @@ type Term struct {
 	Clipboard     []string
 	WinSizeReq    [][2]int
 	Scrolled      int // number of times output made the screen scroll (never expected)
+	PrintsOnMain  int // characters printed while the main (not the alternate) screen was active
 
 	Errors  []string // well-formedness violations
 	Ignored map[string]int
@@ -370,6 +371,9 @@ func (t *Term) print(r rune) {
 }
 
 func (t *Term) printGlyph(r rune) {
+	if !t.AltScreen {
+		t.PrintsOnMain++
+	}
 	t.Text = append(t.Text, r)
 	w := runewidth.RuneWidth(r)
 	if w == 0 {
